@@ -5,6 +5,7 @@ package main
 import (
 	"fmt"
 	"go/token"
+	"go/types"
 	"strings"
 
 	"golang.org/x/tools/go/ssa"
@@ -35,6 +36,8 @@ func runC19(w *World, r *Report) {
 	r.Rule("C19/WIRING", "the credential options (Username, Password, PassCredentialsAll, RepoURL) are fed only from the options of the same name and bound to their own command-line flags", 3)
 	checkWiring(w, r, "C19/WIRING", map[string]bool{"Username": true, "Password": true, "PassCredentialsAll": true, "RepoURL": true})
 	checkFlagBinding(w, r, "C19/WIRING", map[string]bool{"Username": true, "Password": true, "PassCredentialsAll": true, "RepoURL": true})
+	c19OptionsKept(w, r)
+	c19OriginCompare(w, r)
 }
 
 func urlFieldLoad(v ssa.Value, field string) (base ssa.Value, ok bool) {
@@ -596,4 +599,117 @@ func optionContainers(v ssa.Value) []*ssa.Alloc {
 	fwd(v, 0)
 	// keep the outermost holders: a struct alloc that received a slice built from an array alloc
 	return out
+}
+
+// deadAppends: appends in fn whose result is never used (x = append(x, …) to a variable nobody reads
+// afterwards): the appended element is lost.
+func deadAppends(fn *ssa.Function, elemOK func(types.Type) bool) []*ssa.Call {
+	var out []*ssa.Call
+	for _, b := range fn.Blocks {
+		for _, in := range b.Instrs {
+			c, ok := in.(*ssa.Call)
+			if !ok {
+				continue
+			}
+			bi, ok := c.Call.Value.(*ssa.Builtin)
+			if !ok || bi.Name() != "append" {
+				continue
+			}
+			sl, ok := c.Type().Underlying().(*types.Slice)
+			if !ok || !elemOK(sl.Elem()) {
+				continue
+			}
+			used := false
+			if refs := c.Referrers(); refs != nil {
+				for _, rf := range *refs {
+					if _, dbg := rf.(*ssa.DebugRef); !dbg {
+						used = true
+					}
+				}
+			}
+			if !used {
+				out = append(out, c)
+			}
+		}
+	}
+	return out
+}
+
+// c19OptionsKept: a getter option that was appended reaches the getter: in particular the option that
+// clears the credentials for a foreign chart URL is not appended to a list nobody reads any more.
+func c19OptionsKept(w *World, r *Report) {
+	r.Rule("C19/OPTIONS-KEPT", "no append of a getter.Option is dead (its result unused): an option added to a list is seen by the downloader that is handed the list", 1)
+	isOpt := func(t types.Type) bool {
+		n, ok := t.(*types.Named)
+		return ok && n.Obj().Pkg() != nil && n.Obj().Pkg().Path() == helmMod+"/pkg/getter" && n.Obj().Name() == "Option"
+	}
+	n, total := 0, 0
+	for _, fn := range w.HelmFuncs() {
+		if strings.HasSuffix(w.FileOf(fn), "_test.go") {
+			continue
+		}
+		total++
+		for _, c := range deadAppends(fn, isOpt) {
+			n++
+			r.Bad("C19/OPTIONS-KEPT", fmt.Sprintf("%s/append#%d", FuncName(fn), n), w.InstrPos(c), "the result of this append of a getter option is never used: the option (for instance the one that clears the credentials for a chart URL on another origin) never reaches the getter")
+		}
+	}
+	if n == 0 {
+		r.OK("C19/OPTIONS-KEPT", "none", "-", fmt.Sprintf("%d functions scanned, no dead append of a getter option", total))
+	}
+}
+
+// c19OriginCompare: "the same origin" means scheme, host and port. A host name with scheme and port
+// stripped (URL.Hostname, urlutil.ExtractHostname) is never what two URLs are compared by.
+func c19OriginCompare(w *World, r *Report) {
+	r.Rule("C19/ORIGIN-COMPARE", "no two URLs are compared through their bare host names (URL.Hostname / urlutil.ExtractHostname drop scheme and port): same-origin decisions use scheme and host:port", 1)
+	isHostname := isHostnameValue
+	n, total := 0, 0
+	for _, fn := range w.HelmFuncs() {
+		if strings.HasSuffix(w.FileOf(fn), "_test.go") {
+			continue
+		}
+		total++
+		for _, b := range fn.Blocks {
+			for _, in := range b.Instrs {
+				bo, ok := in.(*ssa.BinOp)
+				if !ok || (bo.Op != token.EQL && bo.Op != token.NEQ) {
+					continue
+				}
+				if !isStringType(bo.X.Type()) {
+					continue
+				}
+				if _, isC := bo.X.(*ssa.Const); isC {
+					continue
+				}
+				if _, isC := bo.Y.(*ssa.Const); isC {
+					continue
+				}
+				if isHostname(bo.X) && isHostname(bo.Y) {
+					n++
+					r.Bad("C19/ORIGIN-COMPARE", fmt.Sprintf("%s/compare#%d", FuncName(fn), n), w.InstrPos(bo), "two URLs are compared by their bare host names: another port or scheme on the same host counts as the same server, and whatever is decided by this (keeping or sending credentials) also applies to that other origin")
+				}
+			}
+		}
+	}
+	if n == 0 {
+		r.OK("C19/ORIGIN-COMPARE", "none", "-", fmt.Sprintf("%d functions scanned, no comparison of two bare host names", total))
+	}
+}
+
+// isHostnameValue: v derives from URL.Hostname() or urlutil.ExtractHostname().
+func isHostnameValue(v ssa.Value) bool {
+	hit := false
+	backSlice(v, func(x ssa.Value) bool {
+		if c, ok := x.(*ssa.Call); ok {
+			if f, _ := calleeOf(c.Common()); f != nil {
+				if n := FuncName(f); n == "(*net/url.URL).Hostname" || n == "internal/urlutil.ExtractHostname" {
+					hit = true
+				}
+			}
+			return true
+		}
+		return false
+	})
+	return hit
 }
